@@ -258,6 +258,12 @@ def run(res, tier):
                             res.bad("R-LAZY-SKIP", f"{vname}:{f}:guard", INV if "inverse" in vname else FWD, 0,
                                     f"in {vname}, a guard tests d->{f} before any clear in this call")
 
+    # ------------------------------------------------------------- R-FRESH on the stepping pipelines
+    from .. import r_fresh
+    res.rule("R-FRESH", "no stage reads a derived field whose producer in the same pipeline is more conditional than the reader", floor=20)
+    for integ in ("mjINT_EULER", "mjINT_IMPLICIT", "mjINT_IMPLICITFAST", "mjINT_RK4"):
+        r_fresh.check(res, "R-FRESH", f"mj_step[{integ}]", F.flatten(uf.funcs["mj_step"], {"m->opt.integrator": enum[integ]}), FWD)
+
     res.explanation = (
         "Sibling agreement of the monolithic and split pipelines after inlining orchestration functions and constant "
         "propagation (3 integrators), guard agreement of forward/inverse skip stages, mod-set of mj_forward's closure "
